@@ -33,6 +33,9 @@ pub enum Op {
     Drain,
     /// `handles[h].clone_from(&handles[src])` (the other half of the `Clone` trait), same handle kind required
     CloneFrom(usize),
+    /// a new lexer of token type A over the run's SECOND source (ordinary or partial); handles over different sources
+    /// meet in `CloneFrom` (the step's handle index is ignored)
+    Open2(bool),
 }
 
 #[derive(Clone, Debug, PartialEq)]
@@ -45,6 +48,8 @@ pub struct Step {
 pub struct Scenario {
     pub pair: String,
     pub source: Vec<u8>,
+    /// a second, different source (its own allocation) that `Open2` opens lexers over
+    pub source2: Vec<u8>,
     pub partial: bool,
     pub extras: ExM,
     pub steps: Vec<Step>,
@@ -68,6 +73,7 @@ impl Step {
             Op::Bump(n) => json!({"h": self.h, "op": "Bump", "n": n}),
             Op::SetExtras(x) => json!({"h": self.h, "op": "SetExtras", "extras": exm_json(x)}),
             Op::CloneFrom(src) => json!({"h": self.h, "op": "CloneFrom", "src": src}),
+            Op::Open2(partial) => json!({"h": self.h, "op": "Open2", "partial": partial}),
             other => json!({"h": self.h, "op": format!("{:?}", other)}),
         }
     }
@@ -84,6 +90,7 @@ impl Step {
             "Drop" => Op::Drop,
             "Drain" => Op::Drain,
             "CloneFrom" => Op::CloneFrom(v.get("src")?.as_u64()? as usize),
+            "Open2" => Op::Open2(v.get("partial")?.as_bool()?),
             _ => return None,
         };
         Some(Step { h, op })
@@ -95,6 +102,7 @@ impl Scenario {
         json!({
             "pair": self.pair,
             "source_hex": to_hex(&self.source),
+            "source2_hex": to_hex(&self.source2),
             "source_text": show_bytes(&self.source),
             "partial": self.partial,
             "extras": exm_json(&self.extras),
@@ -105,6 +113,8 @@ impl Scenario {
         Some(Scenario {
             pair: v.get("pair")?.as_str()?.to_string(),
             source: from_hex(v.get("source_hex")?.as_str()?)?,
+            // replay files written before the second source existed: a copy of the first one
+            source2: match v.get("source2_hex") { Some(h) => from_hex(h.as_str()?)?, None => from_hex(v.get("source_hex")?.as_str()?)? },
             partial: v.get("partial")?.as_bool()?,
             extras: exm_from(v.get("extras")?)?,
             steps: v.get("steps")?.as_array()?.iter().map(Step::from_json).collect::<Option<Vec<_>>>()?,
@@ -121,6 +131,8 @@ impl Scenario {
 
 #[derive(Clone, Debug)]
 pub struct M {
+    /// which of the run's two sources the handle reads (0 / 1)
+    pub src: u8,
     /// 0 = token type A, 1 = token type B
     pub def: u8,
     pub start: usize,
@@ -286,13 +298,17 @@ fn fault_class(src: &[u8], is_str: bool, start: usize, end: usize, n: u64) -> &'
 }
 
 /// Draw the next step given the models of the live handles.
-fn gen_step(rng: &mut Rng, models: &[M], src: &[u8], is_str: bool, faults: bool) -> Step {
+fn gen_step(rng: &mut Rng, models: &[M], srcs: &[&[u8]; 2], is_str: bool, faults: bool) -> Step {
     let live: Vec<usize> = (0..models.len()).filter(|&i| models[i].alive).collect();
     if live.is_empty() {
         return Step { h: 0, op: Op::Next };
     }
     let h = *rng.pick(&live);
     let m = &models[h];
+    let src: &[u8] = srcs[m.src as usize];
+    if live.len() < 6 && rng.chance(1, 24) {
+        return Step { h, op: Op::Open2(rng.chance(1, 3)) };
+    }
     // weights: Next, InnerNext, Bump(legal), Bump(fault), Clone, Morph, Spanned, SetExtras, Drop, Drain
     let w_fault = if faults { 14 } else { 0 };
     let weights = [
@@ -493,19 +509,19 @@ macro_rules! pair_sim {
             fn sweep(
                 handles: &mut [H],
                 models: &[M],
-                src: &$Src,
+                srcs: &[&$Src; 2],
                 stats: &mut Stats,
                 step: usize,
                 opkind: &str,
             ) -> Result<(), Violation> {
-                let bytes = <$Src as SrcKind>::as_bytes_(src);
-                let base = bytes.as_ptr() as usize;
-                let len = bytes.len();
                 for (i, h) in handles.iter_mut().enumerate() {
                     let m = &models[i];
                     if !m.alive {
                         continue;
                     }
+                    let bytes = <$Src as SrcKind>::as_bytes_(srcs[m.src as usize]);
+                    let base = bytes.as_ptr() as usize;
+                    let len = bytes.len();
                     let (span, ex, sptr) = with_lexer!(h, l => {
                         let sp = l.span();
                         let s = l.source();
@@ -524,7 +540,7 @@ macro_rules! pair_sim {
                     }
                     if sptr != (base, len) {
                         return Err(violation!("ACC-source", step, opkind, "",
-                            "handle {}: source() is not the original source", i));
+                            "handle {}: source() is not the source the handle was created over / last cloned from (source #{})", i, m.src));
                     }
                     if !m.corrupt {
                         let got = catch(|| with_lexer!(h, l => (l.slice().raw(), l.remainder().raw())));
@@ -608,7 +624,7 @@ macro_rules! pair_sim {
                 m.fault_seen = true;
             }
 
-            pub fn exec(pair: &str, source: &[u8], partial: bool, extras: ExM, mut steps: StepSource, faults: bool) -> Outcome {
+            pub fn exec(pair: &str, source: &[u8], source2: &[u8], partial: bool, extras: ExM, mut steps: StepSource, faults: bool) -> Outcome {
                 let mut stats = Stats::default();
                 let mut done: Vec<Step> = Vec::new();
                 // exact-size private allocation
@@ -622,7 +638,16 @@ macro_rules! pair_sim {
                 let src: &$Src = <$Src as SrcKind>::view(&owned);
                 let bytes = <$Src as SrcKind>::as_bytes_(src);
                 let is_str = <$Src as SrcKind>::IS_STR;
-                let len = bytes.len();
+                let owned2 = match <$Src as SrcKind>::owned(source2) {
+                    Some(s) => s,
+                    None => {
+                        eprintln!("api-sim: second source of a str pair is not valid UTF-8");
+                        std::process::exit(2);
+                    }
+                };
+                let src2: &$Src = <$Src as SrcKind>::view(&owned2);
+                let srcs: [&$Src; 2] = [src, src2];
+                let bytes_all: [&[u8]; 2] = [bytes, <$Src as SrcKind>::as_bytes_(src2)];
 
                 let ex0 = ExM { force: extras.force && faults, ..extras };
                 let mut handles: Vec<H> = vec![H::LA(if partial {
@@ -631,13 +656,13 @@ macro_rules! pair_sim {
                     Lexer::with_extras(src, <$EA as Ex>::from_model(ex0))
                 })];
                 let mut models: Vec<M> = vec![M {
-                    def: 0, start: 0, end: 0, prefix: partial, ex: ex0, spanned: false, alive: true, corrupt: false,
+                    src: 0, def: 0, start: 0, end: 0, prefix: partial, ex: ex0, spanned: false, alive: true, corrupt: false,
                     bumped_since_next: false, last_none: false, fault_seen: false,
                 }];
                 let mut violation: Option<Violation> = None;
                 let mut stepno = 0usize;
 
-                if let Err(v) = sweep(&mut handles, &models, src, &mut stats, 0, "init") {
+                if let Err(v) = sweep(&mut handles, &models, &srcs, &mut stats, 0, "init") {
                     violation = Some(v);
                 }
 
@@ -647,22 +672,41 @@ macro_rules! pair_sim {
                         StepSource::Gen { rng, remaining } => {
                             if *remaining == 0 { break; }
                             *remaining -= 1;
-                            gen_step(rng, &models, bytes, is_str, faults)
+                            gen_step(rng, &models, &bytes_all, is_str, faults)
                         }
                     };
                     done.push(step.clone());
                     stepno = done.len();
                     let h = step.h;
+                    if let Op::Open2(p2) = step.op {
+                        if models.iter().filter(|m| m.alive).count() >= 6 {
+                            stats.hit("skipped_too_many_handles");
+                            continue;
+                        }
+                        let ex2 = ExM { force: false, ..extras };
+                        handles.push(H::LA(if p2 { Lexer::partial_with_extras(src2, <$EA as Ex>::from_model(ex2)) } else { Lexer::with_extras(src2, <$EA as Ex>::from_model(ex2)) }));
+                        models.push(M { src: 1, def: 0, start: 0, end: 0, prefix: p2, ex: ex2, spanned: false, alive: true, corrupt: false,
+                            bumped_since_next: false, last_none: false, fault_seen: false });
+                        stats.hit("op_open_lexer_over_second_source");
+                        if let Err(v) = sweep(&mut handles, &models, &srcs, &mut stats, stepno, "Open2") {
+                            violation = Some(v);
+                        }
+                        continue;
+                    }
                     if h >= handles.len() || !models[h].alive {
                         stats.hit("skipped_dead_or_missing_handle");
                         continue;
                     }
+                    // everything below concerns handle h: its source
+                    let src: &$Src = srcs[models[h].src as usize];
+                    let bytes: &[u8] = bytes_all[models[h].src as usize];
+                    let len = bytes.len();
                     let live_now = models.iter().filter(|m| m.alive).count();
                     stats.max_live = stats.max_live.max(live_now);
                     if models[h].fault_seen {
                         stats.op_after_fault_same_handle = true;
                     }
-                    let opkind: String = match &step.op { Op::Bump(_) => "Bump".into(), Op::SetExtras(_) => "SetExtras".into(), Op::CloneFrom(_) => "CloneFrom".into(), o => format!("{:?}", o) };
+                    let opkind: String = match &step.op { Op::Bump(_) => "Bump".into(), Op::SetExtras(_) => "SetExtras".into(), Op::CloneFrom(_) => "CloneFrom".into(), Op::Open2(_) => "Open2".into(), o => format!("{:?}", o) };
                     let mut executed = true;
 
                     match step.op.clone() {
@@ -827,6 +871,7 @@ macro_rules! pair_sim {
                                 Err(p) => violation = Some(violation!("CLONE-panic", stepno, opkind, "", "clone() panicked: {}", p)),
                             }
                         }
+                        Op::Open2(_) => unreachable!("handled above"),
                         Op::CloneFrom(src) => {
                             if src >= handles.len() || src == h || !models[src].alive || models[src].def != models[h].def || models[src].spanned != models[h].spanned {
                                 stats.hit("skipped_inapplicable");
@@ -845,9 +890,11 @@ macro_rules! pair_sim {
                             match r {
                                 Ok(()) => {
                                     let keep_fault = models[h].fault_seen;
+                                    let m_src_before = models[h].src;
                                     models[h] = models[src].clone();
                                     models[h].fault_seen = keep_fault || models[src].fault_seen;
                                     if models[src].start == models[h].start { stats.hit("probe_clone_from_same_position_other_extras"); }
+                                    if models[src].src != m_src_before { stats.hit("probe_clone_from_handle_over_the_other_source"); }
                                     if stats.first_next_seen { stats.clone_or_morph_after_next = true; }
                                     stats.hit("op_clone_from");
                                 }
@@ -994,14 +1041,14 @@ macro_rules! pair_sim {
                         stats.steps_executed += 1;
                     }
                     if violation.is_none() {
-                        if let Err(v) = sweep(&mut handles, &models, src, &mut stats, stepno, &opkind) {
+                        if let Err(v) = sweep(&mut handles, &models, &srcs, &mut stats, stepno, &opkind) {
                             violation = Some(v);
                         }
                     }
                 }
                 let _ = stepno;
                 Outcome {
-                    scenario: Scenario { pair: pair.to_string(), source: source.to_vec(), partial, extras, steps: done },
+                    scenario: Scenario { pair: pair.to_string(), source: source.to_vec(), source2: source2.to_vec(), partial, extras, steps: done },
                     stats,
                     violation,
                 }
@@ -1018,13 +1065,13 @@ pair_sim!(pair_manual, ManA, ManB, ExA, ExB, String);
 
 const PAIRS: [&str; 5] = ["modes", "bytes", "callbacks", "anchors", "manual"];
 
-fn exec_pair(pair: &str, source: &[u8], partial: bool, extras: ExM, steps: StepSource, faults: bool) -> Outcome {
+fn exec_pair(pair: &str, source: &[u8], source2: &[u8], partial: bool, extras: ExM, steps: StepSource, faults: bool) -> Outcome {
     match pair {
-        "modes" => pair_modes::exec(pair, source, partial, extras, steps, faults),
-        "bytes" => pair_bytes::exec(pair, source, partial, extras, steps, faults),
-        "callbacks" => pair_callbacks::exec(pair, source, partial, extras, steps, faults),
-        "anchors" => pair_anchors::exec(pair, source, partial, extras, steps, faults),
-        "manual" => pair_manual::exec(pair, source, partial, extras, steps, faults),
+        "modes" => pair_modes::exec(pair, source, source2, partial, extras, steps, faults),
+        "bytes" => pair_bytes::exec(pair, source, source2, partial, extras, steps, faults),
+        "callbacks" => pair_callbacks::exec(pair, source, source2, partial, extras, steps, faults),
+        "anchors" => pair_anchors::exec(pair, source, source2, partial, extras, steps, faults),
+        "manual" => pair_manual::exec(pair, source, source2, partial, extras, steps, faults),
         _ => {
             eprintln!("api-sim: unknown pair {pair:?}");
             std::process::exit(2)
@@ -1033,7 +1080,7 @@ fn exec_pair(pair: &str, source: &[u8], partial: bool, extras: ExM, steps: StepS
 }
 
 fn replay(sc: &Scenario, faults: bool) -> Outcome {
-    exec_pair(&sc.pair, &sc.source, sc.partial, sc.extras, StepSource::Replay(sc.steps.iter()), faults)
+    exec_pair(&sc.pair, &sc.source, &sc.source2, sc.partial, sc.extras, StepSource::Replay(sc.steps.iter()), faults)
 }
 
 // ---------------------------------------------------------------------------------------------
@@ -1104,6 +1151,12 @@ fn run_one(seed: u64, mode: &str, index: u64, want_sample: bool) -> RunReport {
     let mut rng = Rng::for_run(seed, if faults { "api-sim/c15" } else { "api-sim/c14" }, index);
     let pair = PAIRS[(index % 5) as usize];
     let source = gen_source(&mut rng, pair);
+    // the second source: usually short and different, sometimes the same text (in another allocation), sometimes empty
+    let source2 = match rng.below(6) {
+        0 => source.clone(),
+        1 => Vec::new(),
+        _ => { let mut s2 = gen_source(&mut rng, pair); if s2.len() > 64 { let mut k = 64; while k > 0 && (s2[k] & 0xC0) == 0x80 { k -= 1; } s2.truncate(k); } s2 }
+    };
     let partial = if pair == "anchors" { rng.chance(2, 3) } else { rng.chance(1, 3) };
     let extras = ExM { count: rng.below(5) as u32, request: rng.below(4) as u64, force: false, tag: rng.below(256) as u8 };
     let nsteps = match rng.below(6) {
@@ -1111,7 +1164,7 @@ fn run_one(seed: u64, mode: &str, index: u64, want_sample: bool) -> RunReport {
         1..=3 => rng.range(5, 20),
         _ => rng.range(21, 40),
     };
-    let out = exec_pair(pair, &source, partial, extras, StepSource::Gen { rng: &mut rng, remaining: nsteps }, faults);
+    let out = exec_pair(pair, &source, &source2, partial, extras, StepSource::Gen { rng: &mut rng, remaining: nsteps }, faults);
     report(out, faults, seed, index, want_sample)
 }
 
